@@ -25,7 +25,7 @@ M_HEAD = ['util', 'body', 'ext', 'client::amended', 'client::call', 'client::flo
 PROPS = {
     'C01': {
         'modules': ['util', 'chunk', 'body', 'parser', 'client::call', 'client::flow', 'lemmas', 'coding'],
-        'explanation': 'Corollary of the step contracts: every resumable step is verified against a schedule-free spec function of its own resumable state (head_step for the head writer: remaining-head == emitted ++ remaining-head\'; post_write_body for body writes; exact-mapping contracts for the head parsers; min3 / passthrough copies for the readers), so two schedules cannot disagree; composition lemmas are proved by induction over arbitrary call lists: head (lemma_head_schedule_independent), Content-Length request body (lemma_sized_history), Content-Length response body (lemma_len_history), chunked response body (coding::lemma_chunked_history), close-reason trace (lemma_close_trace); read-only queries are proved to leave the flow unchanged. NOT proved: a composition lemma for the chunked REQUEST body across several writes (each write is proved to emit a valid chunking of exactly what it consumed) and anything about what httparse accepts.',
+        'explanation': 'Corollary of the step contracts: every resumable step is verified against a schedule-free spec function of its own resumable state (head_step for the head writer: remaining-head == emitted ++ remaining-head\'; post_write_body for body writes; exact-mapping contracts for the head parsers; min3 / passthrough copies for the readers), so two schedules cannot disagree; composition lemmas are proved by induction over arbitrary call lists: head (lemma_head_schedule_independent), Content-Length request body (lemma_sized_history), Content-Length response body (lemma_len_history), chunked response body (coding::lemma_chunked_history), close-reason trace (lemma_close_trace); read-only queries are proved to leave the flow unchanged. chunked request body (lemma_chunked_writes_history). NOT proved: anything about what httparse accepts (the response head is an uninterpreted function of the bytes, so schedule independence of the head holds by construction of the contract, not by a proof about httparse).',
         'assumptions': [VERUS, USIZE, WRITER_MODEL, FMT, HTTP, HTTPARSE, ITER, PRE],
         'bounded': ['whole-exchange schedules (twins of C02, C03, C04, C05, C07, C08)'],
     },
@@ -36,8 +36,8 @@ PROPS = {
         'bounded': ['AmendedRequest::headers()/headers_len() against eff_headers = added ++ (original minus unset): native exhaustive run'],
     },
     'C03': {
-        'modules': M_BODYW,
-        'explanation': 'write_chunk / BodyWriter::{write,finish} extracted verbatim and verified against: every data write appends a sequence of complete non-empty chunks whose data equals the consumed input (existential witness built as ghost state in the loop); the terminator is emitted only by an empty write, at most once, and ended <=> terminator completely emitted; Call<WithBody>::write refuses data after finish without any effect; Flow<SendBody>::{write,can_proceed} transport it.',
+        'modules': M_BODYW + ['lemmas'],
+        'explanation': 'write_chunk / BodyWriter::{write,finish} extracted verbatim and verified against: every data write appends a sequence of complete non-empty chunks whose data equals the consumed input (existential witness built as ghost state in the loop); the terminator is emitted only by an empty write, at most once, and ended <=> terminator completely emitted; Call<WithBody>::write refuses data after finish without any effect; Flow<SendBody>::{write,can_proceed} transport it; lemmas::lemma_chunked_writes_history: over ANY list of data writes the wire is a chunk stream of exactly the concatenated consumed input (induction; chunk encodings concatenate).',
         'assumptions': [VERUS, USIZE, WRITER_MODEL, FMT, 'byte-string literal b"0\\r\\n\\r\\n" denotes its bytes (N14)'],
     },
     'C04': {
